@@ -152,6 +152,15 @@ def run_case(case, ctx):
             (root / "side.py").write_text("# SPDX-FileCopyrightText: 2012 Side\n# SPDX-License-Identifier: CC0-1.0\n")
             (root / "side.py.license").mkdir()
             res.cell("extra:sidecar-is-a-directory")
+        ign = []
+        if recipe.get("git"):
+            # files the work tree ignores: no covered files, for lint and for lint-file alike, even when named one by one
+            (root / ".git" / "info" / "exclude").write_text("ign-*\nout/\n")
+            (root / "out").mkdir(exist_ok=True)
+            (root / "ign-generated.py").write_text("g = 1\n")
+            (root / "out" / "artefact.c").write_text("int a;\n")
+            ign = ["ign-generated.py", "out/artefact.c"]
+            res.cell("extra:git-ignored-files-named-one-by-one")
         meson = case["k"] % 4 == 2
         if meson:
             # defective files inside a Meson subproject: covered for lint *and* for lint-file once the option is given
@@ -166,7 +175,7 @@ def run_case(case, ctx):
         FS.begin()
         try:
             MESON[0] = ctx.state["meson_opt"]
-            check_formats(res, recipe, root, lic_paths, rng, case)
+            check_formats(res, recipe, root, lic_paths, rng, case, ign)
         finally:
             FS.end()
             FS.fail_open = {}
@@ -182,7 +191,7 @@ def run_case(case, ctx):
 MESON = [[]]
 
 
-def check_formats(res, recipe, root, lic_paths, rng, case):
+def check_formats(res, recipe, root, lic_paths, rng, case, ign=()):
     root = str(root)
     base = ["--no-multiprocessing", "--root", root] + rng.choice([[], ["--include-submodules"]]) if False else ["--no-multiprocessing", "--root", root]
     base = base + MESON[0]
@@ -277,7 +286,7 @@ def check_formats(res, recipe, root, lic_paths, rng, case):
 
     # ---- lint-file
     covered = sorted({normp(f["path"], root, root) for f in data["files"]} | jv["read_error"])
-    others = [x["path"] for x in recipe["extra"]] + list(lic_paths)[:3] + \
+    others = list(ign) + [x["path"] for x in recipe["extra"]] + list(lic_paths)[:3] + \
              [f["path"] + ".license" for f in recipe["files"] if any(s_["carrier"] == "dotlicense" for s_ in f["sources"])][:2]
     dirs = sorted({os.path.dirname(p) for p in covered if os.path.dirname(p)})[:2]
     sub_dirs = [d for d in dirs if os.path.isdir(os.path.join(root, d))]
